@@ -182,7 +182,15 @@ class CallMixin:
             if p not in env:
                 if p not in dmap:
                     raise Unsupported("missing argument %s for %s" % (p, fdef.name))
-                env[p] = self.const_val(ast.literal_eval(dmap[p]), st)
+                try:
+                    env[p] = self.const_val(ast.literal_eval(dmap[p]), st)
+                except ValueError:
+                    text = ast.unparse(dmap[p])       # a module-level object named in the sidecar's globals
+                    keys = [g for g in self.globals if g == text or g.endswith('.' + text)]
+                    if len(keys) != 1:
+                        raise Unsupported("default value %s of parameter %s of %s" % (text, p, fdef.name))
+                    g = self.globals[keys[0]]
+                    env[p] = g(self, st) if callable(g) else self.const_val(g, st)
         return env
 
     def run_inlined(self, body, env, parent, st, node, k):
@@ -375,10 +383,14 @@ class CallMixin:
             raise ContractError("forall/exists(x, Sort, ..., body)")
         binds, zs = {}, []
         for a, s in zip(args[0:-1:2], args[1:-1:2]):
-            sort = s.id
+            sort = ast.unparse(s)
             if sort == 'Int':
                 z = z3.Int(fresh_name(a.id))
                 binds[a.id] = VInt(z)
+            elif '[' in sort:            # a structured type, e.g. Opt[LayerRef] or Tuple[Str,Layer]
+                t = parse_type(sort)
+                z = z3.Const(fresh_name(a.id), sort_of(t))
+                binds[a.id] = from_z3(z, t)
             else:
                 z = z3.Const(fresh_name(a.id), usort(sort))
                 binds[a.id] = VObj(sort, z)
@@ -655,8 +667,10 @@ class CallMixin:
             return self.guard(st, self.has_attr(o, name, st), 'AttributeError', 'getattr', node, lambda s: k(s, val))
         d = args[2]
         has = self.has_attr(o, name, st)
-        if isinstance(d, VNone) or t[0] == 'opt':
-            raise Unsupported("getattr with None default")
+        if t[0] == 'opt':
+            raise Unsupported("getattr with a default on an optional attribute")
+        if isinstance(d, VNone):
+            return k(st, VOpt(z3.Not(has), val))
         return k(st, from_z3(z3.If(has, to_z3(val, t), to_z3(d, t)), t))
 
     def bi_isinstance(self, args, kws, st, node, k):
